@@ -60,7 +60,8 @@ def expected_element(n, v, cs, icvn, excluded, type_list=(), in_composite_usage=
 
 def _rest(n, v, t, lo, cs, icvn, excluded, type_list):
     out = set()
-    if t in ('AN', 'ID') and v.endswith(' ') and len(v.rstrip()) >= lo:
+    # blanks at the end are needed only to reach the minimum length: any beyond it are needless
+    if t in ('AN', 'ID') and v.endswith(' ') and len(v) > lo:
         out.add('6')
     if n.codes or n.ext is not None:
         ok = v in n.codes
@@ -89,7 +90,7 @@ def catalogue(n, tier):
             '040229', '990230', '200402291230', '200402292460', '20040400', '20040100', '20041301', '20040001', '20040132',
             '040400', '041301', '21000229', '20000229', '18000101', '17991231', '2400', '2360', '235960', '23595999', '235959999',
             'Z' * max(0, lo - 1), 'Z' * lo, 'Z' * hi2, 'Z' * (hi2 + 1), '9' * max(0, lo - 1), '9' * lo, '9' * hi2, '9' * (hi2 + 1),
-            '-' + '9' * hi2, '9' * max(1, hi2 - 1) + '.9', '-' + '9' * (hi2 + 1), 'Z' * max(1, lo) + ' ', 'Z' * max(0, lo - 1) + ' ',
+            '-' + '9' * hi2, '9' * max(1, hi2 - 1) + '.9', '-' + '9' * (hi2 + 1), 'Z' * max(1, lo) + ' ', 'Z' * max(0, lo - 1) + ' ', 'Z' * max(0, lo - 1) + '  ', 'Z' + ' ' * min(hi2 - 1, lo + 2), ' ' * min(hi2, lo + 1),
             '<b>', '^', '`', 'a%b', '{x}', '#', '$', '~@', 'A:B', '123456789', '12345678', '1234567890']
     ncodes = len(n.codes) if tier == 'thorough' else min(len(n.codes), 12)
     vals += n.codes[:ncodes]
